@@ -28,6 +28,12 @@ type Line struct {
 	Asked bool          `json:"asked"` // the spec needed the IDNA oracle (result not predicted)
 	Steps []interp.Step `json:"steps"`
 	Nobj  int           `json:"nobj"`
+	// class lines (t = "c"): all spellings of one host must give the same result (C09)
+	Base    proj.Text     `json:"base"`
+	Frames  [][]proj.Text `json:"frames"`
+	Hosts   []proj.Text   `json:"hosts"`
+	Trivial bool          `json:"trivial"`
+	Exp     []proj.Text   `json:"exp"`
 }
 
 type Mismatch struct {
@@ -273,6 +279,14 @@ func cmdReplay(args []string) int {
 				S.Executions++
 				runHistory(*family, mode, &ln, kset, *params, json.RawMessage(inner), report, &S)
 			}
+		case "c":
+			S.Steps += len(ln.Hosts) * len(ln.Frames)
+			if len(S.Samples) < 5 {
+				S.Samples = append(S.Samples, fmt.Sprintf("class of %d spellings of host %s, e.g. %s", len(ln.Hosts), ln.Base.String(), ln.Hosts[len(ln.Hosts)/2].String()))
+			}
+			for _, fr := range ln.Frames {
+				runClass(*family, &ln, fr, json.RawMessage(inner), report, &S, distinct)
+			}
 		default:
 			fmt.Fprintf(os.Stderr, "unknown line type %q\n", ln.T)
 			return 2
@@ -325,6 +339,73 @@ func runParse(entry string, ln *Line) (fail bool, got proj.Proj, errc string) {
 		return true, got, "nilnil"
 	}
 	return false, proj.Project(u), ""
+}
+
+// runClass parses frame[0]+spelling+frame[1] for every spelling of one host and demands: all succeed with the same
+// hostname or all fail; the hostname is ASCII-only, lower case and free of forbidden domain code points; a file URL's
+// localhost becomes the empty host; and for a trivial (pure ASCII, no xn--) base the result is the specification's.
+func runClass(family string, ln *Line, fr []proj.Text, raw json.RawMessage, report func(Mismatch), S *Summary, distinct map[[20]byte]struct{}) {
+	pre, suf := fr[0].ToGo(), fr[1].ToGo()
+	isFile := strings.HasPrefix(pre, "file:")
+	first := ""
+	firstFail := false
+	for i, h := range ln.Hosts {
+		S.Executions++
+		in := pre + h.ToGo() + suf
+		fail, got, errc := func() (fail bool, host string, errc string) {
+			defer func() {
+				if r := recover(); r != nil {
+					fail, errc = true, fmt.Sprintf("panic: %v", r)
+				}
+			}()
+			u, err := url.Parse(in)
+			if err != nil {
+				return true, "", ""
+			}
+			if u == nil {
+				return true, "", "nilnil"
+			}
+			return false, u.Hostname(), ""
+		}()
+		if errc != "" {
+			S.Panics++
+			report(Mismatch{Family: family, Entry: pre, What: errc, Got: in, Line: raw})
+			return
+		}
+		if i == 0 {
+			first, firstFail = got, fail
+			k := sha1.Sum([]byte(fmt.Sprintf("%v|%s|%s", fail, got, pre)))
+			distinct[k] = struct{}{}
+			if !fail {
+				for _, c := range got {
+					if c >= 0x80 || (c >= 'A' && c <= 'Z') || c <= 0x20 || strings.ContainsRune("#/:<>?@[\\]^|%\x7f", c) {
+						if !(strings.HasPrefix(got, "[") && (c == ':' || c == '[' || c == ']')) {
+							report(Mismatch{Family: family, Entry: pre, What: "domain-not-normalised", Keys: []string{"hostname"}, Exp: "ASCII, lower case, no forbidden domain code point", Got: got, Line: raw})
+							return
+						}
+					}
+				}
+			}
+			if ln.Trivial && !isFile {
+				expFail := len(ln.Exp) == 0
+				if expFail != fail || (!fail && ln.Exp[0].ToGo() != got) {
+					report(Mismatch{Family: family, Entry: pre, What: "trivial-domain", Keys: []string{"hostname"}, Exp: ln.Exp, Got: got, Line: raw})
+					return
+				}
+			}
+			if isFile && ln.Trivial && len(ln.Exp) == 1 && ln.Exp[0].ToGo() == "localhost" && (fail || got != "") {
+				report(Mismatch{Family: family, Entry: pre, What: "file-localhost", Keys: []string{"hostname"}, Exp: "", Got: got, Line: raw})
+				return
+			}
+			continue
+		}
+		if fail != firstFail || got != first {
+			report(Mismatch{Family: family, Entry: pre, What: "spelling-dependent", Keys: []string{"hostname"},
+				Exp: map[string]interface{}{"spelling": ln.Hosts[0], "fail": firstFail, "hostname": first},
+				Got: map[string]interface{}{"spelling": h, "fail": fail, "hostname": got}, Line: raw})
+			return
+		}
+	}
 }
 
 func runHistory(family, mode string, ln *Line, kset map[string]bool, params bool, raw json.RawMessage, report func(Mismatch), S *Summary) {
